@@ -2,6 +2,7 @@ let () =
   match Array.to_list Sys.argv with
   | _ :: "c09" :: file :: _ -> C09.run file
   | _ :: ("c04" | "c07" | "c12" | "c08" | "c14" | "c20" as m) :: file :: _ -> C04.run m file
+  | _ :: "c01" :: file :: _ -> C01.run file
   | _ :: "c05" :: file :: _ -> C05.run file
   | _ :: "c11" :: file :: _ -> C11.run file
   | _ :: "c15" :: file :: _ -> C15.run file
